@@ -225,7 +225,7 @@ class Report:
         if violations:
             os.makedirs(REPLAYS, exist_ok=True)
             for n, sig in enumerate(sorted(violations)):
-                if n >= 25:
+                if n >= 80:
                     break
                 import hashlib
                 safe = "".join(c if c.isalnum() or c in "-_." else "_" for c in sig)[:60]
